@@ -287,6 +287,10 @@ type c09Req struct {
 	// a genuinely signed token with time claims of class tcls sits at tplace; tcheck: the check of the hint verifier
 	// that refuses it first ("" = none / not a hint), tcaller: the function that calls the verifier there
 	tkind, tcls, tplace, tcheck, tcaller string
+	// a token of length-boundary class lcls sits at lplace; lbytes: its length after raw-base64url decoding (-1: undecodable)
+	lplace, lcls string
+	lbytes       int
+	hlen         int // the length of the Authorization header under test (-1: not a header case)
 
 	method, path string
 	query        url.Values
@@ -943,6 +947,30 @@ func c09HandlerStream(r *hx.Rand, n int, big int, full bool, emit func(*hx.Line)
 				stats[fmt.Sprintf("handler.signed.outcome.%dxx", o.status/100)]++
 			}
 		}
+		if q.lplace != "" {
+			l.S("lplace", q.lplace).S("lcls", q.lcls)
+			if q.lbytes >= 0 {
+				l.I("tbytes", int64(q.lbytes))
+			}
+			if q.hlen >= 0 {
+				l.I("hlen", int64(q.hlen))
+			}
+			if strings.Contains(q.lcls, "-challenge-none-") && !strings.HasSuffix(q.lcls, "-verifier-none") {
+				l.B("nilch", true)
+			}
+			stats["handler.length.place."+q.lplace]++
+			stats["handler.length.cls."+strings.SplitN(q.lcls, "-", 2)[0]]++
+			if q.lbytes >= 0 {
+				stats[fmt.Sprintf("handler.length.decoded.%02d", min(q.lbytes, 34))]++
+			} else {
+				stats["handler.length.decoded.undecodable"]++
+			}
+			if o.panicked {
+				stats["handler.length.outcome.panic"]++
+			} else {
+				stats[fmt.Sprintf("handler.length.outcome.%dxx", o.status/100)]++
+			}
+		}
 		l.S("req", q.describe())
 		emit(l)
 		stats["handler."+cb.router]++
@@ -964,6 +992,15 @@ func c09HandlerStream(r *hx.Rand, n int, big int, full bool, emit func(*hx.Line)
 	// correctly signed tokens at every time boundary, at every endpoint that takes one, on every bed
 	for _, cb := range append(append([]*c09Bed{}, beds...), customBed, lenientBed) {
 		for _, q := range cb.signedTimeCases(r, full) {
+			run(cb, q)
+		}
+	}
+	// tokens of every length-boundary class at every endpoint that takes a token, on both routers
+	for _, cb := range beds[:2] {
+		for _, q := range cb.lengthBoundaryCases(r) {
+			run(cb, q)
+		}
+		for _, q := range cb.headerAndPKCECases(r) {
 			run(cb, q)
 		}
 	}
@@ -1701,9 +1738,11 @@ func c09Stream(r *hx.Rand, tier string, n int, w *bufio.Writer) map[string]int {
 	}
 	c09HandlerStream(r, n*45/100, big, tier == "thorough", emit, stats)
 	c09DecoderStream(r, n/100, emit, stats)
+	c09BytesStream(r, n/100, emit, stats)
 	c09ClaimsStream(r, emit, stats)
 	c09VerifyStream(r, n*3/100, emit, stats)
 	c09HintCallerStream(emit, stats)
 	c09ClientStream(r, n*20/100, emit, stats)
+	c09RPHandlerStream(r, n/100, emit, stats)
 	return stats
 }
